@@ -175,7 +175,53 @@ def contracts(s, fresh_builder, data, workdir, which):
         except lib as e: bad.append(('lazy', f'lazy validation raised {type(e).__name__}: {str(e)[:100]}'))
         except Exception as e: bad.append(('total', f'lazy: {type(e).__name__}: {str(e)[:120]}'))
     if 'paths' in which: bad += paths_contract(s, res, errs)
+    if ('roundtrip' in which or 'keys' in which) and not E: bad += roundtrip_contract(s, res, which)
     return [b for b in bad if b[0] in which]
+
+
+def shape(e): return (e.tag, tuple(sorted(e.attrib)), tuple(shape(c) for c in e if isinstance(c.tag, str)))
+
+
+def roundtrip_contract(s, res, which):
+    """C05 / C17 on a valid corpus document: decode, strict encode, the result is valid, has the element structure and attribute sets of the original
+    (JsonML) and decodes to the same data; the keys of default-converter data resolve to the expanded names of their nodes"""
+    import xmlschema
+    from xmlschema import XMLSchemaException
+    from .C17 import check as keys_check
+    bad = []; root = res.root
+    if 'roundtrip' in which:
+        nsm = res.get_namespaces(root_only=False)
+        bag = lambda e: sorted((x.tag, tuple(sorted(x.attrib))) for x in e.iter() if isinstance(x.tag, str))
+        for name, conv in (('default', None), ('jsonml', xmlschema.JsonMLConverter), ('badgerfish', xmlschema.BadgerFishConverter), ('gdata', xmlschema.GDataConverter)):
+            # what a skip wildcard matches is kept only on request, defaults are filled in unless disabled: both are documented options, set so that nothing is added or dropped
+            kw = dict(process_skipped=True, use_defaults=False); kw.update(dict(converter=conv) if conv else {})
+            # (a) the default namespace processing of an XML source: declarations are reported in the data and restored by the encoder
+            try:
+                d = s.decode(res, **kw)
+                e = s.encode(d, path=root.tag, **kw)
+            except XMLSchemaException as x: bad.append(('roundtrip', f'{name}: decode / strict encode of a valid document raised {type(x).__name__}: {str(x)[:160]}')); continue
+            except Exception as x: bad.append(('roundtrip', f'{name}: {type(x).__name__}: {str(x)[:120]}')); continue
+            try:
+                if not s.is_valid(e, namespaces=nsm): bad.append(('roundtrip', f'{name}: the encoded tree is invalid: {(list(s.iter_errors(e, namespaces=nsm))[0].reason or "")[:100]}')); continue
+                if name == 'jsonml' and shape(e) != shape(root): bad.append(('roundtrip', f'{name}: element structure / attribute sets differ'))
+                elif bag(e) != bag(root): bad.append(('roundtrip', f'{name}: the elements and their attribute sets differ (as a multiset)'))
+                # (b) data equality, with one fixed prefix map on both sides (an encoded Element carries no declarations of its own)
+                # the dict conventions cannot place character data among the children of mixed content (the property claims them for contiguous same-named children, JsonML for all)
+                if name != 'jsonml' and any(len(x) and ((x.text or '').strip() or any((c.tail or '').strip() for c in x)) for x in root.iter()): continue
+                d1 = s.decode(res, xmlns_processing='none', namespaces=nsm, **kw)
+                e1 = s.encode(d1, path=root.tag, namespaces=nsm, **kw)
+                d2 = s.decode(e1, namespaces=nsm, **kw)
+                if d2 != d1: bad.append(('roundtrip', f'{name}: re-decoded data differs: {str(d1)[:80]} vs {str(d2)[:80]}'))
+            except XMLSchemaException as x: bad.append(('roundtrip', f'{name}: second pass raised {type(x).__name__}: {str(x)[:160]}'))
+            except Exception as x: bad.append(('roundtrip', f'{name}: {type(x).__name__}: {str(x)[:120]}'))
+    if 'keys' in which:
+        try:
+            d = s.decode(res); kb = []
+            if isinstance(d, dict): keys_check(d, root, {}, kb)
+            for b in kb[:2]: bad.append(('keys', f'at {b[0]}: keys resolve to {b[1][:4]} but the children are {b[2][:4]}'))
+        except XMLSchemaException: pass
+        except Exception as x: bad.append(('keys', f'{type(x).__name__}: {str(x)[:120]}'))
+    return bad
 
 
 XSI_TYPE = '{http://www.w3.org/2001/XMLSchema-instance}type'
@@ -267,6 +313,8 @@ FAMILY = {'C04': ('agree', 'entry points and modes agree on corpus documents and
           'C10': ('repeat', 'a second run and a freshly built schema give the same errors on corpus documents and their mutations'),
           'C11': ('total', 'only library exceptions escape validation, decoding and lazy validation of mutated corpus documents'),
           'C20': ('paths', 'schema.find(path(e)) has the type of the governing declaration; the errors of a part selected by a positional path are the errors of the whole document located in it'),
+          'C05': ('roundtrip', 'a valid corpus document (or valid mutation) decodes, encodes in strict mode to a valid tree with the same structure (JsonML) and decodes to the same data again'),
+          'C17': ('keys', 'the keys of the data decoded from a valid corpus document resolve, with the declarations the data reports, to the expanded names of the nodes'),
           'C19': ('locate', 'every error path of a mutated corpus document selects exactly error.elem')}
 
 
